@@ -167,6 +167,14 @@ Definition rfind_arr_pinned (s : fs) (arr : list byte) (n pos : N) : res N :=
     let pos' := if (pos =? NPOS) || (ln <? pos +! n) then ln -! n else pos in
     scan_down (fuel L) (eq_at s arr n) (pos' +! 1).
 
+(** rfind( ch, npos): the search starts at the terminator *)
+Definition rfind_ch_pinned (s : fs) (ch pos : N) : res N :=
+  let ln := len s in
+  if (ln <? pos +! 1) || (ln =? 0) then Ok NPOS
+  else
+    let pos' := if pos =? NPOS then ln else pos in
+    scan_down (fuel L) (fun idx => do a <- rd (buf s) idx; Ok (a =? ch)) (pos' +! 1).
+
 (** operator != with && *)
 Definition ne_op_pinned (s o : fs) : res bool :=
   if negb (len s =? len o)
